@@ -44,7 +44,7 @@ class Check(PropertyCheck):
         for i, (art, edge) in enumerate(cat):
             offs = [(0, 0), (1, 0), (0, 1)] + [(self.rng.below(61), self.rng.below(41)) for _ in range(n_off)]
             for (k, n) in offs:
-                extra = self.rng.below(3)
+                extra = self.rng.below(4)
                 out.append((i, art, edge, k, n, extra))
         return out
 
@@ -59,6 +59,12 @@ class Check(PropertyCheck):
             t = "\n".join(rows)
         elif extra == 2:  # far below
             t = t + "\n\n\n" + " " * k + "*---> below"
+        elif extra == 3 and k >= 8:  # a label with invisible characters left of the drawing, on one of its rows
+            rows = t.split("\n")
+            lab = ["cafe\u0301", "x\ufe0f y", "a\u200bb", "e\u0301"][(k + n) % 4]
+            r = n + (h // 2 if (k % 2) else 0)
+            rows[r] = lab + rows[r][len(lab):]
+            t = "\n".join(rows)
         return t
 
     def correspondence(self):
